@@ -14,9 +14,9 @@ set_option linter.unusedSimpArgs false
 * `DoneRow T` — every job marked done has a recorded result.  `T` says whether the second half of a torn
   `update_job_status` (`persistJobs`) may occur: with `T = False` (no `persistJobs` in the history, all
   other faults allowed) the statement is exact; with `T = True` (all ops) the exception is spelled out.
-* `FlowA`/`FlowB`/`Counters` — fault-free op sequences (`Op.isFault = false`): completion "tokens" are
-  unique (one row per job, collected once), hence the two counters are exactly the numbers of done and of
-  submitted-or-done jobs.
+* (`Proofs/SystemStatusFlow.lean`, `Proofs/SystemStatusRun.lean`) `FlowA`/`FlowB`/`Counters` — fault-free op
+  sequences (`Op.isFault = false`, defined here): completion "tokens" are unique (one row per job, collected
+  once), hence the two counters are exactly the numbers of done and of submitted-or-done jobs.
 -/
 
 namespace Jade.Sys
